@@ -137,6 +137,28 @@ impl SecondaryStorage {
             }
         }
 
+        if !options.disable_all_disk_operation {
+            // vacuum unused DVs, e.g. the DVs of compacted RowSets or of a crashed deletion.
+            // Otherwise a DV that is later assigned the same id can not be created.
+            let mut dir = fs::read_dir(options.path.join("dv")).await?;
+            while let Some(entry) = dir.next_entry().await? {
+                if let Some(name) = entry.file_name().to_str()
+                    && let Some(name) = name.strip_suffix(".dv")
+                    && let [table_id, rowset_id, dv_id] = name.split('_').collect::<Vec<_>>()[..]
+                    && let (Ok(table_id), Ok(rowset_id), Ok(dv_id)) = (
+                        table_id.parse::<u32>(),
+                        rowset_id.parse::<u32>(),
+                        dv_id.parse::<u64>(),
+                    )
+                    && !dvs_to_open.contains_key(&(table_id, rowset_id, dv_id))
+                {
+                    fs::remove_file(entry.path())
+                        .await
+                        .expect("failed to vacuum unused DVs");
+                }
+            }
+        }
+
         // TODO: parallel open
 
         let tables = engine.tables.read().clone();
